@@ -404,7 +404,7 @@ def r_collision(c):
         src = ast.unparse(fd)
         stores_expr = any(
             isinstance(n, ast.Assign) and "_input_key_to_expr" in ast.unparse(
-                n.targets[0]) and "inputs.expr" in ast.unparse(n.value)
+                n.targets[0]) and ast.unparse(n.value) == fd.args.args[1].arg + ".expr"
             for n in ast.walk(fd)) or "super().add(" in src
         c.check(stores_expr, "R13-COLLISION", f"{short(cls)}.add",
                 "records-expr-for-collision-check", m.loc(ci.module, fd),
